@@ -6,6 +6,14 @@ functions, lemmas, spec-trait impls, constants' mirrors):
 
   //@item <path relative to /repo> :: <selector> [:: <selector>]
   //@| <contract line>          (fn items only; inserted between signature and body)
+  //@include <file>             lines of a file next to the template (shared prelude)
+  //@loop N| / //@loopbody N| / //@loopbefore N|   ghost loop specifications for the N-th loop of the body
+  //@closure| old => new        a closure gets a contract (its expression must reappear unchanged)
+  //@fordesugar N| it           the N-th loop, a `for PAT in EXPR { BODY }`, is replaced by the expansion the Rust
+                                reference defines for it: `let mut it = (EXPR).into_iter(); loop { let Some(PAT) =
+                                it.next() else { break; }; BODY }` (Verus's own `for` support has no `continue`)
+  //@inline_unwrap_or_else| x   `x.unwrap_or_else(|| { B })` is replaced by std's definition of Option::unwrap_or_else,
+                                `match x { Some(v) => v, None => { B } }` (Verus closures cannot capture `&mut`)
 
 For a fn item the output is: kept attributes, the signature with the result named
 (`-> T` becomes `-> (r: T)`; Verus needs the name), the contract lines, and the body -- byte for
@@ -22,7 +30,7 @@ REPO = os.environ.get("VERIF_REPO", "/repo")
 
 def assemble(template_path):
     out, linemap, manifest = [], [], []
-    lines = open(template_path).read().split("\n")
+    lines = expand_includes(template_path)
     i = 0
     cache = {}
     while i < len(lines):
@@ -38,7 +46,8 @@ def assemble(template_path):
         loopspecs = {}
         i += 1
         rewrites = []
-        while i < len(lines) and re.match(r"^\s*//@(\||loop\s+\d+\||loopbody\s+\d+\||loopbefore\s+\d+\||closure\|)", lines[i]):
+        desugars, inlines = [], []
+        while i < len(lines) and re.match(r"^\s*//@(\||loop\s+\d+\||loopbody\s+\d+\||loopbefore\s+\d+\||loopafter\s+\d+\||closure\||fordesugar\s+\d+\||inline_unwrap_or_else\|)", lines[i]):
             cm = re.match(r"^\s*//@closure\|\s?(.*?)\s+=>\s+(.*)$", lines[i])
             if cm:
                 # a closure gets its contract: `|x| expr`  =>  `|x: T| -> (r: U) ensures .. { expr }`.  The closure's
@@ -46,10 +55,26 @@ def assemble(template_path):
                 rewrites.append((cm.group(1), cm.group(2)))
                 i += 1
                 continue
+            dm = re.match(r"^\s*//@fordesugar\s+(\d+)\|\s?(\w+)\s*$", lines[i])
+            if dm:
+                desugars.append((int(dm.group(1)), dm.group(2)))
+                i += 1
+                continue
+            um = re.match(r"^\s*//@inline_unwrap_or_else\|\s?(\w+)\s*$", lines[i])
+            if um:
+                inlines.append(um.group(1))
+                i += 1
+                continue
             pm = re.match(r"^\s*//@loopbefore\s+(\d+)\|\s?(.*)$", lines[i])
             if pm:
                 # ghost statements placed immediately before the n-th loop
                 loopspecs.setdefault(1000 + int(pm.group(1)), []).append(pm.group(2))
+                i += 1
+                continue
+            am = re.match(r"^\s*//@loopafter\s+(\d+)\|\s?(.*)$", lines[i])
+            if am:
+                # ghost statements placed immediately after the n-th loop
+                loopspecs.setdefault(2000 + int(am.group(1)), []).append(am.group(2))
                 i += 1
                 continue
             lm = re.match(r"^\s*//@loop\s+(\d+)\|\s?(.*)$", lines[i])
@@ -100,6 +125,12 @@ def assemble(template_path):
                     raise extract.AnchorLost(f"closure contract for `{old}` does not keep the closure's expression `{expr}`")
                 body = body.replace(old, new)
                 rec["changed"].append(f"closure `{old}` given a contract (parameter type, named result, ensures clause; its expression `{expr}` unchanged): `{new}`")
+            for recv in inlines:
+                body = inline_unwrap_or_else(body, recv)
+                rec["changed"].append(f"`{recv}.unwrap_or_else(|| {{ .. }})` replaced by std's definition `match {recv} {{ Some(v) => v, None => {{ .. }} }}` (closure body text unchanged)")
+            for n, itname in desugars:
+                body = desugar_for(body, n, itname)
+                rec["changed"].append(f"loop {n}: `for PAT in EXPR {{ .. }}` replaced by its language-defined expansion `let mut {itname} = (EXPR).into_iter(); loop {{ let Some(PAT) = {itname}.next() else {{ break; }}; .. }}` (loop body text unchanged)")
             if loopspecs:
                 body = splice_loops(body, loopspecs)
                 rec["changed"].append("ghost loop specifications (invariant/decreases; `proof { }` blocks at the start of a loop body) spliced into loop(s) " + ", ".join(sorted({str(abs(k) % 1000) for k in loopspecs})) + "; executable text unchanged")
@@ -122,6 +153,83 @@ def assemble(template_path):
     return "\n".join(out), dict(linemap), manifest
 
 
+BODYSTART = " /*@bodystart*/"
+
+
+def inline_unwrap_or_else(body, recv):
+    pat = recv + ".unwrap_or_else(|| {"
+    if body.count(pat) != 1:
+        raise extract.AnchorLost(f"`{pat}` occurs {body.count(pat)} times (expected once)")
+    start = body.index(pat)
+    if start > 0 and re.match(r"[\w.]", body[start - 1]):
+        raise extract.AnchorLost(f"receiver of unwrap_or_else is not the plain variable `{recv}`")
+    open_brace = start + len(pat) - 1
+    toks = [(k, t, p) for k, t, p in extract.tokenize(body[open_brace:])]
+    depth = 0
+    close = None
+    for k, t, p in toks:
+        if k == "punct" and t == "{":
+            depth += 1
+        elif k == "punct" and t == "}":
+            depth -= 1
+            if depth == 0:
+                close = open_brace + p
+                break
+    if close is None or not re.match(r"\s*\)", body[close + 1:]):
+        raise extract.AnchorLost("unwrap_or_else closure body is not a braced block followed by `)`")
+    after = close + 1 + re.match(r"\s*\)", body[close + 1:]).end()
+    return (body[:start] + "match " + recv + " { Some(unwrap_or_else_value) => unwrap_or_else_value, None => "
+            + body[open_brace:close + 1] + " }" + body[after:])
+
+
+def desugar_for(body, n, itname):
+    toks = list(extract.tokenize(body))
+    count = 0
+    for idx, (k, t, p) in enumerate(toks):
+        if k == "ident" and t in ("while", "for", "loop"):
+            count += 1
+            if count != n:
+                continue
+            if t != "for":
+                raise extract.AnchorLost(f"loop {n} is a `{t}`, not a `for`")
+            # PAT up to the `in` keyword at depth 0, EXPR up to the `{` at depth 0
+            depth = 0
+            in_pos = brace_pos = None
+            for k2, t2, p2 in toks[idx + 1:]:
+                if k2 == "punct" and t2 in "([":
+                    depth += 1
+                elif k2 == "punct" and t2 in ")]":
+                    depth -= 1
+                elif depth == 0 and k2 == "ident" and t2 == "in" and in_pos is None:
+                    in_pos = p2
+                elif depth == 0 and k2 == "punct" and t2 == "{" and in_pos is not None:
+                    brace_pos = p2
+                    break
+            if in_pos is None or brace_pos is None:
+                raise extract.AnchorLost(f"loop {n}: cannot find `in` / `{{`")
+            pat = body[p + 3:in_pos].strip()
+            expr = body[in_pos + 2:brace_pos].strip()
+            return (body[:p] + f"let mut {itname} = ({expr}).into_iter(); loop " + "{"
+                    + f" let Some({pat}) = {itname}.next() else " + "{ break; };" + BODYSTART + body[brace_pos + 1:])
+    raise extract.AnchorLost(f"loop {n} not found for desugaring")
+
+
+def expand_includes(path, depth=0):
+    """`//@include <file>`: the lines of a file next to the template are inserted (shared preludes of units that
+    put different contracts on the same function)"""
+    out = []
+    for line in open(path).read().split("\n"):
+        m = re.match(r"^\s*//@include\s+(\S+)\s*$", line)
+        if m and depth < 3:
+            inc = expand_includes(os.path.join(os.path.dirname(path), m.group(1)), depth + 1)
+            if inc and inc[-1] == "":
+                inc = inc[:-1]
+            out.extend(inc)
+        else:
+            out.append(line)
+    return out
+
+
 def splice_loops(body, loopspecs):
     """insert ghost loop specs before the `{` that opens the n-th loop (1-based, in textual order)"""
     toks = list(extract.tokenize(body))
@@ -132,18 +240,33 @@ def splice_loops(body, loopspecs):
             n += 1
             if 1000 + n in loopspecs:
                 inserts.append((p, "\n    ".join(loopspecs[1000 + n]) + "\n    "))
-            if n in loopspecs or -n in loopspecs:
+            if n in loopspecs or -n in loopspecs or 2000 + n in loopspecs:
                 depth = 0
-                for k2, t2, p2 in toks[idx + 1:]:
+                for j2, (k2, t2, p2) in enumerate(toks[idx + 1:]):
                     if k2 == "punct" and t2 in "([":
                         depth += 1
                     elif k2 == "punct" and t2 in ")]":
                         depth -= 1
                     elif k2 == "punct" and t2 == "{" and depth == 0:
                         if -n in loopspecs:
-                            inserts.append((p2 + 1, "\n      " + "\n      ".join(loopspecs[-n])))
+                            # after the `let Some(PAT) = it.next() else { break; };` of a desugared `for`, when present
+                            at = p2 + 1
+                            sent = body.find(BODYSTART, p2)
+                            if sent >= 0 and body[p2 + 1:sent].count("{") == 1:
+                                at = sent + len(BODYSTART)
+                            inserts.append((at, "\n      " + "\n      ".join(loopspecs[-n])))
                         if n in loopspecs:
                             inserts.append((p2, "\n      " + "\n      ".join(loopspecs[n]) + "\n    "))
+                        if 2000 + n in loopspecs:
+                            d = 0
+                            for k3, t3, p3 in toks[idx + 1 + j2:]:
+                                if k3 == "punct" and t3 == "{":
+                                    d += 1
+                                elif k3 == "punct" and t3 == "}":
+                                    d -= 1
+                                    if d == 0:
+                                        inserts.append((p3 + 1, "\n    " + "\n    ".join(loopspecs[2000 + n])))
+                                        break
                         break
     for p, text in sorted(inserts, reverse=True):
         body = body[:p] + text + body[p:]
